@@ -7,6 +7,7 @@ mod c06;
 mod c09;
 mod c10;
 mod c17;
+mod c18;
 mod wire;
 mod msgcfg;
 
@@ -32,6 +33,7 @@ fn main() {
         "version" => println!("{}", pgp::VERSION),
         "c14" => c14::run(&cases, &out, &tier, seed),
         "c10" => c10::run(&cases, &out, &tier, seed),
+        "c18" => c18::run(&cases, &out, &tier, seed),
         "c06" => c06::run(&cases, &out, &tier, seed),
         "c16" => c16::run(&cases, &out, &tier, seed),
         "c01" => c01::run(&cases, &out, &tier, seed),
